@@ -334,6 +334,9 @@ namespace Dune
     /** \todo Please doc me! */
     inline difference_type distanceTo(const ArrayListIterator<T,N,A>& other) const;
 
+    //! Distance to a const iterator: makes <, <=, >, >= and - work between mutable and const iterators
+    inline difference_type distanceTo(const ConstArrayListIterator<T,N,A>& other) const;
+
     //! Standard constructor
     inline ArrayListIterator() : position_(0), list_(nullptr)
     {}
@@ -643,6 +646,14 @@ namespace Dune
   typename ArrayListIterator<T,N,A>::difference_type ArrayListIterator<T,N,A>::distanceTo(const ArrayListIterator<T,N,A>& other) const
   {
     // Makes only sense if we reference a common list
+    assert(list_==(other.list_));
+    return other.position_ - position_;
+  }
+
+  template<class T, int N, class A>
+  typename ArrayListIterator<T,N,A>::difference_type ArrayListIterator<T,N,A>::distanceTo(const ConstArrayListIterator<T,N,A>& other) const
+  {
+    // Makes sure we are on the same list
     assert(list_==(other.list_));
     return other.position_ - position_;
   }
